@@ -70,8 +70,8 @@ def base_spec(root: str, u, cache: str | None, n_workers: int) -> dict:
 
 def worker_env(ctl_path: str) -> dict[str, str]:
     env = dict(os.environ)
-    env["PYTHONPATH"] = os.pathsep.join([os.path.join(VERIF, "mc", "shim"), "/repo"])
-    env["MYPY_TEST_PREFIX"] = "/repo"
+    env["PYTHONPATH"] = os.pathsep.join([os.path.join(VERIF, "mc", "shim"), drivers.REPO])
+    env["MYPY_TEST_PREFIX"] = drivers.REPO
     env["MYPY_ALT_LIB_PATH"] = "tmp"
     env["PYTHON_MYPY_VERIF"] = "1"
     env["VERIF_CTL"] = ctl_path
